@@ -28,6 +28,10 @@ DescOK(d) == /\ d.help # <<>>
              /\ \A i \in DOMAIN d.vl : ValidLabelName(d.vl[i])
              /\ \A i, j \in DOMAIN d.vl : i # j => d.vl[i] # d.vl[j]          \* a variable label name twice
              /\ VarSet(d) \cap DOMAIN d.cl = {}                               \* the same name constant and variable
+\* the reserved bucket label of histograms, "le" (l and e are outside the table: scalar + 1000)
+LeName == <<1108, 1101>>
+HistDescOK(d) == DescOK(d) /\ LeName \notin (DOMAIN d.cl \cup VarSet(d))
+
 SortedNames(S) == SetToSortSeq(S, LAMBDA a, b : SeqLt(a, b))
 
 \* identity: fully-qualified name and the constant-label VALUES in label-name order, each terminated by a
